@@ -110,8 +110,12 @@ static void src_priv_dtor(void *data) {
 }
 
 static void *task_thread(void *data) {
+    /*
+     * Runs on a pool thread: the source is kept alive by the reference taken in start_task(),
+     * but its module may have been stopped or deregistered meanwhile: do not touch it.
+     */
     ev_src_t *src = (ev_src_t *)data;
-    M_MOD_CTX(src->mod);
+    m_ctx_t *c = src->task_src.ctx;
     src->task_src.retval = src->task_src.tid.fn((void *)src->userptr);
     poll_notify_userevent(&c->ppriv, src);
     return NULL;
@@ -455,7 +459,38 @@ int start_task(m_ctx_t *c, ev_src_t *src) {
         c->thpool = m_thpool_new(M_TASK_MAX_THREADS, M_THPOOL_LAZY);
     }
     M_ALLOC_ASSERT(c->thpool);
-    return m_thpool_add(c->thpool, task_thread, src);
+    if (!c->tasks) {
+        c->tasks = m_list_new(NULL, mem_dtor);
+    }
+    M_ALLOC_ASSERT(c->tasks);
+
+    /* The pool thread uses the source: keep it alive until the pool is done (see release_tasks()), whatever happens to its module */
+    src->task_src.ctx = c;
+    int ret = m_list_insert(c->tasks, m_mem_ref(src));
+    if (ret != 0) {
+        m_mem_unref(src);
+        return ret;
+    }
+    ret = m_thpool_add(c->thpool, task_thread, src);
+    if (ret != 0) {
+        m_list_remove(c->tasks, src);
+    }
+    return ret;
+}
+
+/* To be called once no pool thread is running anymore */
+void release_tasks(m_ctx_t *c) {
+#ifdef __linux__
+    /* Tasks that were discarded before they could run never signalled: their duplicate descriptor is still open */
+    m_itr_foreach(c->tasks, {
+        ev_src_t *src = m_itr_get(m_itr);
+        if (!src->task_src.notified && src->task_src.wfd > 0) {
+            close(src->task_src.wfd);
+            src->task_src.notified = true;
+        }
+    });
+#endif
+    m_list_free(&c->tasks);
 }
 
 /** Public API **/
